@@ -20,6 +20,7 @@ import SJ.Drv.C16x
 import SJ.Drv.StreamRaw
 import SJ.Drv.LexMath
 import SJ.Drv.StreamTyped
+import SJ.Drv.LineCol
 /-!
 `sjdriver` — reads case lines `op args… => impl-observation` on stdin, runs the Lean model and the
 executable specification on each, prints
@@ -53,6 +54,7 @@ def allHandlers : List (String × Handler) :=
     StreamRaw.handlers,
     LexMath.handlers,
     StreamTyped.handlers,
+    LineCol.handlers,
   ]
 
 def findHandler (op : String) : Option Handler := (allHandlers.find? (·.1 == op)).map (·.2)
